@@ -24,7 +24,7 @@ CONSTANTS Caller,          \* concurrent callers
           MaxCalls,        \* calls per caller
           Deviation        \* subset of {"EarlyPut", "SharedStatic", "ResultAliasesBuffer"}
 
-None == "none"
+None == 0                                \* "no buffer" (not a member of Buf)
 Junk == <<"junk">>
 Zero == <<"zero">>
 NoData == <<"nodata">>
@@ -109,11 +109,20 @@ MacSum(c) ==
     /\ pc' = [pc EXCEPT ![c] = "summed"]
     /\ UNCHANGED <<free, content, adv, kind, held, priv, want, seen, calls, returned>>
 
+(* Once HMAC has read the buffer the call does not touch it again: giving it up before the return   *)
+(* (an earlier Put, or a per-call buffer that the collector reclaims) is as good as the deferred Put. *)
+ReleaseAfterUse(c) ==
+    /\ pc[c] \in {"written", "summed"} /\ held[c] # None
+    /\ \/ free' = free \cup {held[c]}
+       \/ free' = free                      \* dropped: the memory becomes unallocated
+    /\ held' = [held EXCEPT ![c] = None]
+    /\ UNCHANGED <<content, adv, pc, kind, priv, want, seen, res, calls, returned>>
+
 ReturnPut(c) ==
     /\ pc[c] = "summed"
-    /\ free' = IF "SharedStatic" \in Deviation THEN free ELSE free \cup {held[c]}
+    /\ free' = IF "SharedStatic" \in Deviation \/ held[c] = None THEN free ELSE free \cup {held[c]}
     /\ returned' = returned \cup {[c |-> c, n |-> calls[c], val |-> res[c],
-                                  view |-> IF "ResultAliasesBuffer" \in Deviation /\ ~priv[c] THEN held[c] ELSE None]}
+                                  view |-> IF "ResultAliasesBuffer" \in Deviation /\ ~priv[c] /\ held[c] # None THEN held[c] ELSE None]}
     /\ held' = [held EXCEPT ![c] = None]
     /\ pc' = [pc EXCEPT ![c] = "idle"]
     /\ UNCHANGED <<content, adv, kind, priv, want, seen, res, calls>>
@@ -142,7 +151,7 @@ EarlyPut(c) ==                       \* Put before the buffer has been read
     /\ UNCHANGED <<content, adv, pc, kind, held, priv, want, seen, res, calls, returned>>
 
 Next == \/ \E c \in Caller : Get(c) \/ Fill(c) \/ FillGrow(c) \/ MacNew(c) \/ MacWrite(c) \/ MacSum(c)
-                             \/ ReturnPut(c) \/ EarlyPut(c)
+                             \/ ReturnPut(c) \/ EarlyPut(c) \/ ReleaseAfterUse(c)
         \/ GC \/ AdvGet \/ AdvScribble \/ AdvPut
 
 Spec == Init /\ [][Next]_vars
